@@ -258,6 +258,114 @@ fn run_mini(ctx: &Ctx, prop: &str) -> i32 {
     }
 }
 
+/// C02 scenario outside the model's name alphabet: a name whose first character is U+00E5.
+/// Its Latin-1 byte 0xE5 is the "deleted entry" marker; the specification stores 0x05 instead.
+fn e5_scenario(seed: u64, i: u64, rep: &mut Report) {
+    use crate::vm::{Fl, Nm};
+    let mut rng = Rng::from_parts(&[seed, i, 0xE5]);
+    let g = Geom::random(&mut rng, Some(i % 2 == 0), 4);
+    let b = fsx::build(g, Recipe::Small, None, &mut rng);
+    let m = fsx::mount_image(b.img, (4, 4, 1), 5000);
+    let name = if i % 3 == 0 { "\u{e5}B.TXT" } else { "\u{e5}" };
+    let content = fsx::payload(77 + i as u32, 0, 700);
+    let r = report::catch(|| -> Result<(), crate::vm::E> {
+        let v = m.vm.open_volume(Fl::Raw, b.g.part_slot)?;
+        let d = m.vm.open_root_dir(Fl::Raw, v)?;
+        let f = m.vm.open_file(Fl::Raw, d, Nm::Str(name), embedded_sdmmc::Mode::ReadWriteCreate)?;
+        m.vm.write(Fl::Raw, f, &content)?;
+        m.vm.close_file(Fl::Raw, f)?;
+        m.vm.close_dir(Fl::Raw, d)?;
+        m.vm.close_volume(Fl::Raw, v)
+    });
+    rep.evaluations += 1;
+    let case = J::obj().set("scenario", "name starting with U+00E5").set("geometry", b.g.describe()).set("name", name);
+    match r {
+        Ok(Ok(())) => {}
+        other => {
+            rep.violate(crate::report::Violation::new("C02", "C02.missing", "open_file_in_dir", "first name byte 0xE5 (create failed)", format!("creating {:?} failed: {:?}", name, other.map(|x| x.map_err(|e| crate::vm::ek(&e)))), case));
+            return;
+        }
+    }
+    let img = m.disk.image();
+    let Ok(snap) = crate::fatref::Snap::open(&img, b.g.part_slot) else { return };
+    let w = snap.walk();
+    let found = w.nodes.iter().find(|n| {
+        let nm = n.slot.name();
+        !n.path.contains('/') && (nm[0] == 0x05 || nm[0] == 0xC5 || nm[0] == 0xE5) && (name.len() <= 2 || nm[1] == b'B') && n.size == 700
+    });
+    match found {
+        Some(n) if snap.read_chain_bytes(&n.chain, n.size) == content => rep.count("e5_names_found_after_remount", 1),
+        _ => rep.violate(crate::report::Violation::new("C02", "C02.missing", "close_file", "first name byte 0xE5", format!("file {:?} was created, written and closed, but a fresh reader of the medium finds no such live entry (first byte 0xE5 reads as deleted)", name), case)),
+    }
+}
+
+/// C16: the same op list on a twin image whose FSInfo record is stale / out of range must give
+/// the same results and never panic.
+fn stale_fsinfo_twin(cfg: &HistCfg, golden: &Engine, rep: &mut Report) {
+    use super::ops::Exec;
+    use crate::vm::{make_vm, Clock};
+    let mut rng = Rng::from_parts(&[cfg.seed, cfg.index, 0x57A1]);
+    let variants = [
+        FsInfoInit::Custom { count: 0, hint: 0xFFFF_FFFF },
+        FsInfoInit::Custom { count: 0xFFFF_FFFE, hint: 2 },
+        FsInfoInit::Custom { count: 7, hint: 0 },
+        FsInfoInit::Custom { count: 1, hint: 1 },
+        FsInfoInit::Custom { count: 0x0FFF_FFFF, hint: 0x0FFF_FFF8 },
+        FsInfoInit::Custom { count: rng.next_u32(), hint: rng.next_u32() },
+        FsInfoInit::Custom { count: 0xFFFF_FFFF, hint: 0xFFFF_FFF0 },
+        FsInfoInit::Unknown,
+    ];
+    let fsinfo = variants[(cfg.index as usize / 5) % variants.len()].clone();
+    let mut c2 = cfg.clone();
+    c2.fsinfo = Some(fsinfo.clone());
+    let built = match report::catch(|| build_image(&c2)) {
+        Ok(b) => b,
+        Err(_) => return,
+    };
+    if !built.parts[0].fat32 {
+        return;
+    }
+    let hint = match &fsinfo {
+        FsInfoInit::Custom { hint, .. } => *hint,
+        _ => 0xFFFF_FFFF,
+    };
+    let disk = crate::dev::Disk::new(built.img);
+    disk.with(|s| s.record_writes = false);
+    let clock = Clock::new(1000);
+    let vm = make_vm(cfg.limits, disk.clone(), clock.clone(), cfg.id_offset);
+    let mut ex = Exec::new(vm, disk, clock);
+    let case = cfg.to_json().set("twin_fsinfo", format!("{:?}", fsinfo)).set("geometry", built.parts[0].describe());
+    for (i, op) in golden.ops.iter().enumerate() {
+        let r = ex.exec(op);
+        rep.evaluations += 1;
+        if let super::ops::OpRes::Panic(m, l) = &r {
+            rep.violate(crate::report::Violation::new("C16", "C16.panic", op.kind(), &crate::report::short_loc(l), format!("op #{} {} panicked on the twin volume with FSInfo {:?}: '{}' at {}", i, op.describe(), fsinfo, m, crate::report::short_loc(l)), case.clone()));
+            return;
+        }
+        if golden.results.get(i) != Some(&r) {
+            // the allocator may pick different clusters, which shows in entry views (start cluster) only
+            let same_kind = match (golden.results.get(i), &r) {
+                (Some(super::ops::OpRes::Ok(super::ops::Out::Entry(_))), super::ops::OpRes::Ok(super::ops::Out::Entry(_))) => true,
+                (Some(super::ops::OpRes::Ok(super::ops::Out::Listing(a))), super::ops::OpRes::Ok(super::ops::Out::Listing(b))) => a.len() == b.len(),
+                (Some(super::ops::OpRes::Ok(super::ops::Out::ListingLfn(a))), super::ops::OpRes::Ok(super::ops::Out::ListingLfn(b))) => a.len() == b.len(),
+                _ => false,
+            };
+            if !same_kind {
+                rep.violate(crate::report::Violation::new(
+                    "C16",
+                    "C16.stale-diverges",
+                    op.kind(),
+                    &format!("hint {}", if hint == 0xFFFF_FFFF { "unknown" } else if hint < 2 { "below 2" } else { "other" }),
+                    format!("op #{} {}: {} with a correct FSInfo record, {} with {:?}", i, op.describe(), golden.results[i].short(), r.short(), fsinfo),
+                    case.clone(),
+                ));
+                return;
+            }
+        }
+    }
+    rep.count("stale_fsinfo_twin_runs", 1);
+}
+
 pub fn run_model_check(ctx: &Ctx, prop: &str, quick_n: usize, thorough_n: usize) -> i32 {
     if ctx.arg("leg") == Some("mini") {
         return run_mini(ctx, prop);
@@ -283,8 +391,16 @@ pub fn run_model_check(ctx: &Ctx, prop: &str, quick_n: usize, thorough_n: usize)
     let total = report::parallel(ctx.threads, n, |i, rep| {
         let cfg = cfg_for(prop, ctx.seed, i as u64);
         match run_history(&cfg) {
-            Ok(e) => absorb(e, &cfg, rep, 2),
+            Ok(e) => {
+                if prop == "C16" && i % 5 == 0 && cfg.fat32 == Some(true) && !e.aborted && !cfg.two_parts {
+                    stale_fsinfo_twin(&cfg, &e, rep);
+                }
+                absorb(e, &cfg, rep, 2)
+            }
             Err(er) => rep.inconclusive.push(format!("history {}: {}", i, er)),
+        }
+        if prop == "C02" && i % 40 == 0 {
+            e5_scenario(ctx.seed, i as u64, rep);
         }
     });
     report::finish(ctx, total, evidence_for(prop))
